@@ -106,13 +106,13 @@ func drawRangeSpec(rt *rapid.T, allowFalse bool) C12Spec {
 		case 2:
 			d = big.NewInt(int64(rapid.IntRange(0, tableLimit).Draw(rt, "dtable")))
 		case 3:
-			d = big.NewInt(int64(rapid.SampledFrom([]int{tableLimit - 1, tableLimit - 2, tableLimit / 4, tableLimit/4 + 1, 1, 2, 3}).Draw(rt, "dedge")))
+			d = big.NewInt(int64(rapid.SampledFrom([]int{tableLimit, tableLimit - 1, tableLimit - 2, tableLimit / 4, tableLimit/4 + 1, 1, 2, 3}).Draw(rt, "dedge")))
 		default:
 			d = randBits(hrand(rapid.Uint64().Draw(rt, "ds"), 4), rapid.IntRange(1, 250).Draw(rt, "dbits"))
 		}
-		if st.Three && d.Cmp(big.NewInt(tableLimit-1)) > 0 {
-			// the generator fills entries 0..limit-1 (its last slot stays empty): that is the table's domain
-			d = new(big.Int).Mod(d, big.NewInt(tableLimit))
+		if st.Three && d.Cmp(big.NewInt(tableLimit)) > 0 {
+			// the table holds entries "up-to and including limit": that is its domain
+			d = new(big.Int).Mod(d, big.NewInt(tableLimit+1))
 		}
 		if allowFalse && rapid.IntRange(0, 2).Draw(rt, "false") == 0 {
 			d = big.NewInt(int64(-rapid.IntRange(1, 2).Draw(rt, "fdelta")))
